@@ -500,6 +500,178 @@ def gen_chain(rng):
     return hp
 
 
+# ---- one interpreted function applied several times in one action ("twin applications")
+# conditions over the applications t[0..k-1]: name -> (k, conjuncts(em, t), the same predicate on the values)
+TWIN_COND = OrderedDict([
+    ("lt", (2, lambda em, t: [em.LT(t[0], t[1])], lambda v: v[0] < v[1])),
+    ("gt", (2, lambda em, t: [em.GT(t[0], t[1])], lambda v: v[0] > v[1])),
+    ("ne", (2, lambda em, t: [em.Not(em.Equals(t[0], t[1]))], lambda v: v[0] != v[1])),
+    ("le", (2, lambda em, t: [em.LE(t[0], t[1])], lambda v: v[0] <= v[1])),
+    ("eq", (2, lambda em, t: [em.Equals(t[0], t[1])], lambda v: v[0] == v[1])),
+    ("diff", (2, lambda em, t: [em.Equals(em.Minus(t[0], t[1]), 2)], lambda v: v[0] - v[1] == 2)),
+    ("split2", (2, lambda em, t: [em.LE(t[0], 1), em.GE(t[1], 2)], lambda v: v[0] <= 1 and v[1] >= 2)),
+    ("sum3", (3, lambda em, t: [em.LT(em.Plus(t[0], t[1]), t[2])], lambda v: v[0] + v[1] < v[2])),
+    ("chain3", (3, lambda em, t: [em.And(em.LT(t[0], t[1]), em.LT(t[1], t[2]))], lambda v: v[0] < v[1] < v[2])),
+    ("split3", (3, lambda em, t: [em.LT(t[0], t[1]), em.Not(em.Equals(t[1], t[2]))], lambda v: v[0] < v[1] and v[1] != v[2])),
+])
+# effect values over the applications: name -> (k, Boolean value?, value(em, t), the same on the values)
+TWIN_VAL = OrderedDict([
+    ("minus", (2, False, lambda em, t: em.Minus(t[0], t[1]), lambda v: v[0] - v[1])),
+    ("pack", (2, False, lambda em, t: em.Plus(em.Times(t[0], 5), t[1]), lambda v: 5 * v[0] + v[1])),
+    ("blt", (2, True, lambda em, t: em.LT(t[0], t[1]), lambda v: v[0] < v[1])),
+    ("mix3", (3, False, lambda em, t: em.Plus(em.Minus(t[0], t[1]), em.Times(t[2], 3)), lambda v: v[0] - v[1] + 3 * v[2])),
+    ("bchain3", (3, True, lambda em, t: em.And(em.LT(t[0], t[1]), em.LE(t[1], t[2])), lambda v: v[0] < v[1] <= v[2])),
+])
+
+
+def twin_configs(hi, inits, moves):
+    """the dial configurations reachable from `inits` (per dial: 'up' / 'down' / 'both' by one) with their distance"""
+    doms = []
+    for i0, m in zip(inits, moves):
+        doms.append([d for d in range(hi + 1) if (m == "both" or (m == "up" and d >= i0) or (m == "down" and d <= i0))])
+    return [(cfg, sum(abs(d - i0) for d, i0 in zip(cfg, inits))) for cfg in product(*doms)]
+
+
+def twin_values(table, args, cfg):
+    return [table.get(cfg[d] + off, 0) for d, off in args]
+
+
+def twin_problem(label, site, form, args, table, hi, inits, moves, target=None, one_shot=False, bounded_ret=False):
+    """ONE interpreted function `fr` applied two or three times, to different argument lists that all contain fluents
+    (`args`: (dial, offset) = the dial fluent or the dial fluent +/- a constant), in one action `gate`:
+     site 'pre'     -- the applications are compared in the precondition(s) of `gate` (form: TWIN_COND), goal `g`;
+     site 'effcond' -- the same condition guards gate's effect `g := true`;
+     site 'effval'  -- gate assigns `out := E(applications)` (unbounded integer, goal `out == target`) or the Boolean
+                       `g := E(applications)` (form: TWIN_VAL).
+    The dials (integers 0..hi) are moved by one by `up<i>` / `down<i>`; `fr` is the explicit table `table` (0 elsewhere).
+    While some argument value is still unknown the compiled problem's optimistic variant of `gate` is used; once every
+    value on the way is known, only the 'known values' variant remains, with one value per APPLICATION."""
+    from unified_planning.environment import Environment
+    from unified_planning.model import Fluent, Problem, InstantaneousAction, InterpretedFunction
+    env = Environment()
+    env.credits_stream = None
+    tm, em = env.type_manager, env.expression_manager
+    p = Problem(label, env)
+    n = len(inits)
+    dials = [Fluent(nm, tm.IntType(0, hi), environment=env) for nm in ["u", "v", "w"][:n]]
+    for f, i0 in zip(dials, inits):
+        p.add_fluent(f, default_initial_value=i0)
+    g = Fluent("g", tm.BoolType(), environment=env)
+    p.add_fluent(g, default_initial_value=False)
+    tbl = dict(table)
+    ret = tm.IntType(min(0, min(tbl.values())), max(tbl.values())) if bounded_ret else tm.IntType()
+    fr = InterpretedFunction("fr", ret, OrderedDict([("k", tm.IntType())]), lambda k: tbl.get(k, 0), env)
+    for f, m in zip(dials, moves):
+        if m in ("up", "both"):
+            a = InstantaneousAction("up_" + f.name, _env=env)
+            a.add_precondition(em.LT(f, hi))
+            a.add_increase_effect(f, 1)
+            p.add_action(a)
+        if m in ("down", "both"):
+            a = InstantaneousAction("down_" + f.name, _env=env)
+            a.add_precondition(em.GT(f, 0))
+            a.add_decrease_effect(f, 1)
+            p.add_action(a)
+
+    def arg(d, off):
+        fe = em.FluentExp(dials[d])
+        return fe if off == 0 else (em.Plus(fe, off) if off > 0 else em.Minus(fe, -off))
+    t = [em.InterpretedFunctionExp(fr, [arg(d, off)]) for d, off in args]
+    gate = InstantaneousAction("gate", _env=env)
+    if one_shot:
+        done = Fluent("done", tm.BoolType(), environment=env)
+        p.add_fluent(done, default_initial_value=False)
+        gate.add_precondition(em.Not(done))
+        gate.add_effect(done, True)
+    if site in ("pre", "effcond"):
+        conj = TWIN_COND[form][1](em, t)
+        if site == "pre":
+            for c in conj:
+                gate.add_precondition(c)
+            gate.add_effect(g, True)
+        else:
+            gate.add_effect(g, True, em.And(conj))
+        p.add_goal(g)
+    else:
+        _, is_bool, val, _ = TWIN_VAL[form]
+        if is_bool:
+            gate.add_effect(g, val(em, t))
+            p.add_goal(g)
+        else:
+            out = Fluent("out", tm.IntType(), environment=env)
+            p.add_fluent(out, default_initial_value=-9)
+            gate.add_effect(out, val(em, t))
+            p.add_goal(em.Equals(out, target))
+    p.add_action(gate)
+    return HandProblem(p, label)
+
+
+def twin_corpus():
+    """two dials, `u` turned up from 0 and `v` turned down from 2, fr = {0: 2, 1: 2, 2: 1, 3: 0}: the gate opens only at
+    configurations that the planner reaches after it has evaluated fr at every dial position (failed attempts first)"""
+    tb = {0: 2, 1: 2, 2: 1, 3: 0}
+    mv = ("up", "down")
+    specs = [
+        ("pre", "lt", [(0, 0), (1, 0)], None),                       # fr(u) < fr(v)
+        ("pre", "split2", [(0, 0), (1, 0)], None),                   # fr(u) <= 1, fr(v) >= 2 (two preconditions)
+        ("pre", "diff", [(1, 0), (0, 1)], None),                     # fr(v) - fr(u + 1) == 2
+        ("pre", "chain3", [(0, 1), (0, 0), (1, 0)], None),           # fr(u + 1) < fr(u) < fr(v)
+        ("effcond", "lt", [(0, 0), (1, 0)], None),
+        ("effval", "minus", [(0, 0), (1, 0)], -1),                   # out := fr(u) - fr(v), goal out == -1
+        ("effval", "blt", [(0, 0), (1, 0)], None),                   # g := fr(u) < fr(v)
+        ("effval", "mix3", [(0, 0), (1, 0), (0, 1)], -1),            # out := fr(u) - fr(v) + 3 * fr(u + 1), goal out == -1
+    ]
+    out = []
+    for site, form, args, target in specs:
+        label = "twin-%s-%s-%s" % (site, form, "".join("uvw"[d] + ("%+d" % o if o else "") for d, o in args))
+        out.append(twin_problem(label, site, form, args, tb, 2, (0, 2), mv, target=target))
+    return out
+
+
+def gen_twin(rng):
+    """random member of the twin-application family; 70 %: table / initial dials drawn again (<= 40 times) until the
+    problem is solvable and every solving configuration is at least two moves away (so the planner first fails and
+    learns the values), the rest unconstrained (trivial and unsolvable ones included)"""
+    site = rng.choice(["pre", "pre", "pre", "effcond", "effval", "effval", "effval"])
+    forms = TWIN_VAL if site == "effval" else TWIN_COND
+    weights = {"le": 1, "eq": 1}
+    form = rng.choice([f for f in forms for _ in range(weights.get(f, 3))])
+    k = forms[form][0]
+    n = 2 if rng.random() < 0.7 else 3
+    hi = rng.randint(2, 3) if n == 2 else 2
+    args = []
+    while len(args) < k:
+        a = (rng.randrange(n), rng.choice([0, 0, 0, 1, -1]))
+        if a not in args:
+            args.append(a)
+    if len(set(d for d, _ in args)) == 1 and rng.random() < 0.7:      # mostly: at least two different fluents
+        args[-1] = ((args[0][0] + 1) % n, 0)
+    want_hard = rng.random() < 0.7
+    fn = forms[form][3] if site == "effval" else forms[form][2]
+    is_bool = site != "effval" or forms[form][1]
+    for _ in range(40):
+        moves = tuple(rng.choice(["up", "down", "both", "both"]) for _ in range(n))
+        inits = tuple(rng.randint(0, 1) if m == "up" else rng.randint(hi - 1, hi) if m == "down" else rng.randint(0, hi)
+                      for m in moves)
+        table = {i: rng.randint(0, 3) for i in range(-1, hi + 2)}
+        cfgs = twin_configs(hi, inits, moves)
+        vals = [(fn(twin_values(table, args, cfg)), dist) for cfg, dist in cfgs]
+        target = None
+        if is_bool:
+            good = [dist for v, dist in vals if v]
+        else:
+            v0 = fn(twin_values(table, args, inits))
+            cands = sorted(set(v for v, _ in vals if v != v0)) or [v0]
+            target = rng.choice(cands)
+            good = [dist for v, dist in vals if v == target]
+        if not want_hard or (good and min(good) >= 2):
+            break
+    hp = twin_problem("gen-twin", site, form, args, table, hi, inits, moves, target=target,
+                      one_shot=rng.random() < 0.25, bounded_ret=rng.random() < 0.3)
+    hp.twin = {"site": site, "form": form, "apps": k}
+    return hp
+
+
 def gen_c01_if(rng):
     """C01 grammar problem that applies its interpreted function `fi` (GenProblem's ifuns knob)"""
     for _ in range(40):
